@@ -8,6 +8,7 @@ from ..core import call_attr, calls_in, const, dotted, is_const, kwarg, norm, sl
 from . import c04
 
 EXPLANATION = [
+    'C05.connect-ind-address: shared with C03: the central registers its end of the link under the address it announces in CONNECT_IND (the ACL relay routes by that address; a mismatch drops every PDU of a link set up from the public address).',
     'C05.deferred-delivery: Controller.send_hci_packet delivers to the host with call_soon(self.host.on_packet, ...), never by calling it directly.',
     'C05.buffer-geometry: in the three Read Buffer Size handlers of the virtual controller every return-parameter keyword is filled from the controller attribute of the same name.',
     'C05.queue-by-transport: host.Connection selects its packet queue by transport alone: host.le_acl_packet_queue for LE, host.acl_packet_queue for BR/EDR, on every path of __init__.',
@@ -647,7 +648,13 @@ def deferred_delivery(ctx):
     R.check(bool(deferred) and not direct, rule, 'bumble.controller.Controller.send_hci_packet', 'delivered with call_soon', 'the controller calls host.on_packet() directly: the Number Of Completed Packets for a fragment reaches the host\'s queue before that fragment is counted as in flight (the credit is discarded as surplus and leaks), and whatever the host sends in reaction is emitted in the middle of the fragment sequence being sent', p.loc(direct[0]) if direct else p.loc(fn))
 
 
+def connect_ind_address_rule(ctx):
+    from .c03 import connect_ind_address
+    connect_ind_address(ctx, 'C05.connect-ind-address')
+
+
 RULES = [
+    ('C05.connect-ind-address', connect_ind_address_rule),
     ('C05.deferred-delivery', deferred_delivery),
     ('C05.buffer-geometry', buffer_geometry),
     ('C05.queue-by-transport', queue_by_transport),
